@@ -12,6 +12,7 @@ import Blue.Proofs.ManiOpenBytes
 import Blue.Proofs.VerifierNewest
 import Blue.Proofs.OrphansLive
 import Blue.Proofs.ConstsTieC08
+import Blue.Proofs.LogRetire
 /-! # Property C08 — no needed file is ever removed; clean-up removes only unreferenced files
 
 Property theorems only.  `Blue.FileRefs` is the transition system of
@@ -47,7 +48,17 @@ What is a THEOREM ABOUT THE MODEL'S ALPHABET rather than about a behaviour (said
 `MANIFEST` (that the real verifier makes no such call is compared by strace);
 `verifier_keeps_needed_trash` says that the repaired plan's filter removes what it removes (that
 the later checks then FIND the copy is shown on `exR`); `Reach.env` lets the store act between
-pass prefixes, not during one. -/
+pass prefixes, not during one.
+
+Log retirement ("a log is moved to the trash only when no unreplayed write depends on it") is block
+`LogRetire`, on the file-system protocol of `Blue.StoreCrash` (the op lists C02 compares with the
+traced system calls of every real flush and recovery): at every `rename log.N → trash/` of every
+history the durable (appended AND synced) manifest lists the SST holding that log's batches and the
+SST is in `sst/`, whole and synced (`log_trashed_only_after_manifest_sync`; as positions in the op
+list: `log_trashed_after_append_then_sync`); at every crash point,
+both persistence models, every acknowledged batch is in a log still in the directory or in a listed,
+present, whole SST (`crash_keeps_needed_files` and its two readings); the swapped order loses an
+acknowledged batch (`swapped_order_loses_batch`). -/
 namespace Blue.Props.C08
 open Blue.FileRefs
 
@@ -482,6 +493,123 @@ example : chainOk exA = true ∧ listed exA = [[120], [122]] ∧ scan exA = [[12
 
 end Orphans
 
+-- BEGIN LogRetire
+/-! ## log retirement -/
+
+/-- what "log `n` may be retired in `fs`" means: each log file numbered `n` is empty, or the SST named
+    by its batches is listed by the DURABLE manifest and is in `sst/`, whole and synced -/
+theorem retirable_means (fs : Blue.StoreCrash.Fs) (n : Nat) :
+    Blue.StoreCrash.Retirable fs n ↔
+      ∀ l ∈ fs.logs, l.1 = n → l.2.data = [] ∨
+        (l.2.data ∈ Blue.StoreCrash.live fs.maniDurable
+          ∧ Blue.StoreCrash.find fs.sst l.2.data = some ⟨l.2.data, l.2.data⟩) := Iff.rfl
+
+/-- **a log is moved to the trash only after the manifest edit listing its SST is durable**: in the
+    op list of EVERY history of the model's alphabet (puts, flushes, compactions, recoveries; from
+    any block-boundary state, so from the empty store: `inv0`), at every `rename log.N → trash/` —
+    every way of writing the list as `pre ++ logTrash n :: post` — the program-order prefix `pre`
+    has left the file system in a state where log `n` is retirable -/
+theorem log_trashed_only_after_manifest_sync (h : List Blue.StoreCrash.Client) (fs : Blue.StoreCrash.Fs)
+    (kv : Blue.StoreCrash.Kv) (hi : Blue.StoreCrash.Inv fs kv) (pre post : List Blue.StoreCrash.Op) (n : Nat)
+    (hsplit : Blue.StoreCrash.opsOf h kv = pre ++ .logTrash n :: post) :
+    Blue.StoreCrash.Retirable (Blue.StoreCrash.run fs pre) n :=
+  Blue.StoreCrash.log_trashed_only_after_manifest_sync h fs kv hi pre post n hsplit
+
+/-- **program order, from the empty store**: every `rename log.N → trash/` of a non-empty log is
+    preceded in the op list by a `maniAppend tx` whose transaction adds the SST named by that log's
+    batches and, between that append and the rename, by a `maniSync` -/
+theorem log_trashed_after_append_then_sync (h : List Blue.StoreCrash.Client) (pre post : List Blue.StoreCrash.Op) (n : Nat)
+    (hsplit : Blue.StoreCrash.opsOf h Blue.StoreCrash.kv0 = pre ++ .logTrash n :: post) :
+    ∀ l ∈ (Blue.StoreCrash.run Blue.StoreCrash.fs0 pre).logs, l.1 = n → l.2.data ≠ [] →
+      ∃ tx a b c, l.2.data ∈ tx.adds
+        ∧ pre = a ++ Blue.StoreCrash.Op.maniAppend tx :: (b ++ Blue.StoreCrash.Op.maniSync :: c) :=
+  Blue.StoreCrash.log_trashed_after_append_then_sync h pre post n hsplit
+
+/-- … block by block: every `logTrash` of a put / flush / compaction / recovery block is guarded -/
+theorem retire_ok_every_block {fs : Blue.StoreCrash.Fs} {kv : Blue.StoreCrash.Kv} (hi : Blue.StoreCrash.Inv fs kv)
+    (c : Blue.StoreCrash.Client) :
+    Blue.StoreCrash.RetireOk fs (Blue.StoreCrash.block kv c)
+    ∧ Blue.StoreCrash.Inv (Blue.StoreCrash.run fs (Blue.StoreCrash.block kv c)) (Blue.StoreCrash.after kv c) :=
+  ⟨Blue.StoreCrash.retireOk_block hi c, Blue.StoreFault.inv_block hi c⟩
+
+/-- **no needed file is in the trash or gone**: at every crash point of every history, under both
+    persistence models ((b): synced bytes, synced manifest; (a): written bytes, whole manifest),
+    every SST the manifest lists is in `sst/` and whole, and every acknowledged batch is in a
+    listed SST or in a log of the directory (`needed_present_means`) -/
+theorem crash_keeps_needed_files (h : List Blue.StoreCrash.Client) (n : Nat) :
+    let g := Blue.StoreCrash.run Blue.StoreCrash.fs0 ((Blue.StoreCrash.opsOf h Blue.StoreCrash.kv0).take n)
+    Blue.StoreCrash.NeededPresent (·.durable) g.maniDurable g
+      (Blue.StoreCrash.acked ((Blue.StoreCrash.opsOf h Blue.StoreCrash.kv0).take n))
+    ∧ Blue.StoreCrash.NeededPresent (·.data) (g.maniDurable ++ g.maniPending) g
+      (Blue.StoreCrash.acked ((Blue.StoreCrash.opsOf h Blue.StoreCrash.kv0).take n)) :=
+  Blue.StoreCrash.crash_keeps_needed_files h n
+
+theorem needed_present_means (view : Blue.StoreCrash.File → List Nat) (txs : List Blue.StoreCrash.Tx)
+    (fs : Blue.StoreCrash.Fs) (ackd : Nat) :
+    Blue.StoreCrash.NeededPresent view txs fs ackd ↔
+      (∀ nm ∈ Blue.StoreCrash.live txs, (Blue.StoreCrash.find fs.sst nm).map view = some nm)
+      ∧ ∀ b, b < ackd → (∃ nm ∈ Blue.StoreCrash.live txs, b ∈ nm) ∨ (∃ lg ∈ fs.logs, b ∈ view lg.2) := Iff.rfl
+
+/-- **crash before the retirement**: an acknowledged batch that no SST listed by the (durable)
+    manifest holds is in a log that is still in the directory -/
+theorem crash_before_retire_keeps_log (h : List Blue.StoreCrash.Client) (n b : Nat)
+    (hb : b < Blue.StoreCrash.acked ((Blue.StoreCrash.opsOf h Blue.StoreCrash.kv0).take n)) :
+    let g := Blue.StoreCrash.run Blue.StoreCrash.fs0 ((Blue.StoreCrash.opsOf h Blue.StoreCrash.kv0).take n)
+    ((∀ nm ∈ Blue.StoreCrash.live g.maniDurable, b ∉ nm) → ∃ lg ∈ g.logs, b ∈ lg.2.durable)
+    ∧ ((∀ nm ∈ Blue.StoreCrash.live (g.maniDurable ++ g.maniPending), b ∉ nm) → ∃ lg ∈ g.logs, b ∈ lg.2.data) :=
+  Blue.StoreCrash.crash_before_retire_keeps_log h n b hb
+
+/-- **crash after the retirement**: an acknowledged batch that is in no log of the directory is in an
+    SST that the (durable) manifest lists and that is in `sst/`, whole -/
+theorem crash_after_retire_has_sst (h : List Blue.StoreCrash.Client) (n b : Nat)
+    (hb : b < Blue.StoreCrash.acked ((Blue.StoreCrash.opsOf h Blue.StoreCrash.kv0).take n)) :
+    let g := Blue.StoreCrash.run Blue.StoreCrash.fs0 ((Blue.StoreCrash.opsOf h Blue.StoreCrash.kv0).take n)
+    ((∀ lg ∈ g.logs, b ∉ lg.2.durable) →
+      ∃ nm ∈ Blue.StoreCrash.live g.maniDurable, b ∈ nm
+        ∧ (Blue.StoreCrash.find g.sst nm).map (·.durable) = some nm)
+    ∧ ((∀ lg ∈ g.logs, b ∉ lg.2.data) →
+      ∃ nm ∈ Blue.StoreCrash.live (g.maniDurable ++ g.maniPending), b ∈ nm
+        ∧ (Blue.StoreCrash.find g.sst nm).map (·.data) = some nm) :=
+  Blue.StoreCrash.crash_after_retire_has_sst h n b hb
+
+/-- **the swapped order** (seeded change `log-trashed-before-ingest`: the rename of the log above the
+    manifest edit): the log is trashed in a state in which it is not retirable, and a crash right
+    after the rename — or after the manifest append, before its sync — reopens without the
+    acknowledged batch 0; the real order keeps it at the same cuts -/
+theorem swapped_order_loses_batch :
+    let ops := Blue.StoreCrash.opsOf [.put] Blue.StoreCrash.kv0 ++ Blue.StoreCrash.flushSwapped [0] 0
+    Blue.StoreCrash.acked (ops.take 8) = 1
+    ∧ ¬ Blue.StoreCrash.Retirable (Blue.StoreCrash.run Blue.StoreCrash.fs0 (ops.take 7)) 0
+    ∧ Blue.StoreCrash.recoverB (Blue.StoreCrash.run Blue.StoreCrash.fs0 (ops.take 8)) = some []
+    ∧ Blue.StoreCrash.recoverA (Blue.StoreCrash.run Blue.StoreCrash.fs0 (ops.take 8)) = some []
+    ∧ Blue.StoreCrash.recoverB (Blue.StoreCrash.run Blue.StoreCrash.fs0 (ops.take 9)) = some []
+    ∧ Blue.StoreCrash.recoverB (Blue.StoreCrash.run Blue.StoreCrash.fs0 ops) = some [0]
+    ∧ Blue.StoreCrash.recoverB (Blue.StoreCrash.run Blue.StoreCrash.fs0
+        ((Blue.StoreCrash.opsOf [.put, .flush] Blue.StoreCrash.kv0).take 8)) = some [0]
+    ∧ Blue.StoreCrash.recoverB (Blue.StoreCrash.run Blue.StoreCrash.fs0
+        ((Blue.StoreCrash.opsOf [.put, .flush] Blue.StoreCrash.kv0).take 9)) = some [0] :=
+  Blue.StoreCrash.swapped_order_loses_batch
+
+/-- non-vacuity: the empty store is a block-boundary state; the history put, flush, put, recovery has
+    two `logTrash` (positions 10 and 20), and the state before each lists the log's SST durably -/
+example : Blue.StoreCrash.Inv Blue.StoreCrash.fs0 Blue.StoreCrash.kv0 := Blue.StoreCrash.inv0
+example :
+    let ops := Blue.StoreCrash.opsOf [.put, .flush, .put, .reopen] Blue.StoreCrash.kv0
+    ops[10]? = some (.logTrash 0) ∧ ops[20]? = some (.logTrash 1)
+    ∧ Blue.StoreCrash.live (Blue.StoreCrash.run Blue.StoreCrash.fs0 (ops.take 10)).maniDurable = [[0]]
+    ∧ Blue.StoreCrash.live (Blue.StoreCrash.run Blue.StoreCrash.fs0 (ops.take 20)).maniDurable = [[0], [1]]
+    ∧ (Blue.StoreCrash.run Blue.StoreCrash.fs0 (ops.take 20)).logs = [(1, ⟨[1], [1]⟩)]
+    ∧ Blue.StoreCrash.Retirable (Blue.StoreCrash.run Blue.StoreCrash.fs0 (ops.take 20)) 1
+    ∧ ¬ Blue.StoreCrash.Retirable (Blue.StoreCrash.run Blue.StoreCrash.fs0 (ops.take 18)) 1 := by decide
+/-- … and of the crash theorems: cut after the second put's acknowledgement (2 acknowledged): batch 0
+    is in the listed SST `[0]`, its log is gone; batch 1 is in no listed SST and in log 1 -/
+example :
+    let ops := Blue.StoreCrash.opsOf [.put, .flush, .put, .reopen] Blue.StoreCrash.kv0
+    let g := Blue.StoreCrash.run Blue.StoreCrash.fs0 (ops.take 14)
+    Blue.StoreCrash.acked (ops.take 14) = 2 ∧ Blue.StoreCrash.live g.maniDurable = [[0]]
+    ∧ g.logs = [(1, ⟨[1], [1]⟩)] := by decide
+-- END LogRetire
+
 end Blue.Props.C08
 
 #print axioms Blue.Props.C08.refcount_invariant_preserved
@@ -514,3 +642,12 @@ end Blue.Props.C08
 #print axioms Blue.Props.C08.pinned_output_stays
 #print axioms Blue.Props.C08.pinned_output_stays_any_run
 #print axioms Blue.Props.C08.unpinned_output_lost
+#print axioms Blue.Props.C08.retirable_means
+#print axioms Blue.Props.C08.log_trashed_only_after_manifest_sync
+#print axioms Blue.Props.C08.log_trashed_after_append_then_sync
+#print axioms Blue.Props.C08.retire_ok_every_block
+#print axioms Blue.Props.C08.crash_keeps_needed_files
+#print axioms Blue.Props.C08.needed_present_means
+#print axioms Blue.Props.C08.crash_before_retire_keeps_log
+#print axioms Blue.Props.C08.crash_after_retire_has_sst
+#print axioms Blue.Props.C08.swapped_order_loses_batch
